@@ -7,6 +7,9 @@ scalar map `f : S → T` (and truth-value map `g : B → C`) that the compute la
 explicit hypothesis: NumPy's ufunc contract for `f := (· i)`).  The property is the corollary at `S := ι → X`,
 `f := (· i)`.
 -/
+import Lean.Elab.Tactic
+import Lean.Elab.Command
+import VectorModel.Gen.Exec.All
 import VectorModel.Glue.Arrays
 
 set_option linter.unusedVariables false
@@ -570,6 +573,150 @@ theorem c03_array_vs_object {ev : Ev (ι → X) (ι → Bx)} {evo : Ev X Bx} (h 
   simp only [List.map_map] at h2
   rw [show (fun a : Vec (ι → X) => elemObj a i) = Vec.setBe .obj ∘ (index · i) from rfl, h2, ← h1]
   cases dispatch ev m scalars ord ops counted <;> rfl
+
+end
+
+/-! ## The hypothesis holds for the generated compute layer
+
+`Ev.Elementwise` is NumPy's contract for the compute layer.  For the GENERATED executable copy of vector's compute
+functions it is a theorem: at the column scalar type `ι → X` (`colScalar`: every primitive acts position by position)
+each of the 82 compute modules, on every key and every argument list, returns at position `i` what it returns on the
+elements at position `i`.  (The compute functions are straight-line code over the primitives, so after fixing the key
+the two sides are definitionally equal.) -/
+
+section
+open VE Lean Elab Tactic Meta
+
+/-- `cases` on the OLDEST local hypothesis whose type is one of the given constants -/
+local elab "cases_oldest" ns:ident+ : tactic => withMainContext do
+  let names ← ns.mapM fun n => realizeGlobalConstNoOverloadWithInfo n
+  for d in (← getLCtx) do
+    if d.isImplementationDetail then continue
+    let ty ← whnfR (← instantiateMVars d.type)
+    if names.any (ty.isConstOf ·) then
+      let gs ← (← getMainGoal).cases d.fvarId
+      replaceMainGoal (gs.map (·.mvarId)).toList
+      return
+  throwError "cases_oldest: no such hypothesis"
+
+/-- `cases` on the argument list (the hypothesis of type `List _` that is not the key `List KA`) -/
+local elab "cases_arglist" : tactic => withMainContext do
+  for d in (← getLCtx) do
+    if d.isImplementationDetail then continue
+    let ty ← whnfR (← instantiateMVars d.type)
+    if ty.isAppOfArity ``List 1 && !(ty.appArg!.isConstOf ``VK.KA) then
+      let gs ← (← getMainGoal).cases d.fvarId
+      replaceMainGoal (gs.map (·.mvarId)).toList
+      return
+  throwError "cases_arglist: no such hypothesis"
+
+/-- fix the length of the key, then the kind of every key atom (first to last), then the coordinate systems -/
+syntax "nat_keys" : tactic
+macro_rules
+  | `(tactic| nat_keys) => `(tactic|
+      first
+      | rfl
+      | (cases ‹List KA› <;> nat_keys)
+      | (cases_oldest VK.KA <;> nat_keys)
+      | (cases_oldest VK.Az VK.Lon VK.Tmp VK.Ord <;> nat_keys))
+
+/-- fix the length of the argument list (no module takes more than 20 arguments), then the key -/
+local macro "nat_mod" : tactic => `(tactic|
+  (iterate 21 (all_goals try cases_arglist)
+   all_goals (simp only [List.map]; nat_keys)))
+
+/-- one lemma `c03_exec_<module>` per constructor of `ModuleId` -/
+local elab "exec_natural_lemmas" : command => do
+  let some (.inductInfo iv) := (← getEnv).find? ``VK.ModuleId | throwError "ModuleId not found"
+  for c in iv.ctors do
+    let s := c.getString!
+    let thm := mkIdent (Name.mkSimple s!"c03_exec_{s}")
+    let ev := mkIdent (`VE ++ Name.mkSimple s ++ `evalL)
+    Command.elabCommand (← `(command|
+      set_option maxRecDepth 8192 in
+      theorem $thm {ι X : Type} [Scalar X] (i : ι) (k : List KA) (a : List (ι → X)) :
+          $ev (S := X) k (a.map (fun c => c i)) =
+            (($ev (S := ι → X) k a).map
+              (Prod.map (Out.map (fun c => c i) (fun (c : ι → VE.B X) => c i)) id)) := by
+        nat_mod))
+
+exec_natural_lemmas
+
+/-- close a goal about `Compute.eval <module>` with the lemma of that module -/
+local elab "exec_lemma" : tactic => withMainContext do
+  let t ← instantiateMVars (← (← getMainGoal).getType)
+  let some c := t.find? (fun e => e.isConst && e.constName!.getPrefix == ``VK.ModuleId)
+    | throwError "exec_lemma: no module"
+  let nm := mkIdent (`VG ++ Name.mkSimple s!"c03_exec_{c.constName!.getString!}")
+  evalTactic (← `(tactic| exact $nm _ _ _))
+
+variable {ι X : Type} [Scalar X]
+
+/-- the generated executable compute layer, as the glue sees it, at the scalar type `S` -/
+abbrev genEv (S : Type) [Scalar S] : Ev S (VE.B S) := fun m k a => Compute.eval (S := S) m k a
+
+/-- the generated compute layer at columns acts element by element: NumPy's ufunc contract, proved for all 82 modules,
+all keys and all argument lists, for every element scalar type -/
+theorem c03_exec_elementwise : Ev.Elementwise (Bx := VE.B X) (genEv (ι → X)) (genEv X) := by
+  intro i m k a
+  cases m <;> exec_lemma
+
+/-- the property, unconditionally, for the generated compute layer: binary methods on two arrays … -/
+theorem c03_exec_elem_binary (i : ι) (K : Consts X) (b : Bin) (arr arr' : Vec (ι → X)) (extra : List (ι → X)) :
+    (binary (genEv (ι → X)) (Consts.bcast ι K) b arr arr' extra).map (Res.at (Bx := VE.B X) · i) =
+      binary (genEv X) K b (index arr i) (index arr' i) (extra.map (· i)) :=
+  c03_elem_binary c03_exec_elementwise i K b arr arr' extra
+
+/-- … an array against a single (broadcast) vector object … -/
+theorem c03_exec_bcast_object (i : ι) (K : Consts X) (b : Bin) (arr : Vec (ι → X)) (o : Vec X) (extra : List X) :
+    (binary (genEv (ι → X)) (Consts.bcast ι K) b arr (bcast ι o) (extra.map (bcastS ι))).map
+        (Res.at (Bx := VE.B X) · i) =
+      binary (genEv X) K b (index arr i) o extra :=
+  c03_bcast_object_right c03_exec_elementwise i K b arr o extra
+
+/-- … properties of arrays, and scaling by a (broadcast) scalar -/
+theorem c03_exec_elem_getAcc (i : ι) (a : Acc) (arr : Vec (ι → X)) :
+    (getAcc (genEv (ι → X)) a arr).map (Res.at (Bx := VE.B X) · i) = getAcc (genEv X) a (index arr i) :=
+  c03_elem_getAcc c03_exec_elementwise i a arr
+
+theorem c03_exec_bcast_scalar (i : ι) (n : Nat) (s : X) (arr : Vec (ι → X)) :
+    (scaleN (genEv (ι → X)) n (bcastS ι s) arr).map (Res.at (Bx := VE.B X) · i) =
+      scaleN (genEv X) n s (index arr i) :=
+  c03_bcast_scalar_scaleN c03_exec_elementwise i n s arr
+
+/-! ### examples: the hypotheses are satisfiable, the statements are not vacuous -/
+
+/-- `Ev.Natural` / `Ev.Elementwise` are satisfiable: by the generated compute layer (above) and by the identity -/
+example (ev : Ev X (VE.B X)) : Ev.Natural (fun s => s) (fun b => b) ev ev := Ev.Natural.id ev
+
+/-- the side condition on `A.inv` of `c03_stepE` holds for the position-wise reciprocal -/
+example (A : Arith X) (i : ι) :
+    let A' : Arith (ι → X) := ⟨fun c j => A.inv (c j), fun c p j => A.pow (c j) (p j), fun _ => A.quarter,
+      fun _ => A.sixth, fun _ => false⟩
+    ∀ s : ι → X, A.inv (s i) = (A'.inv s) i := fun _ => rfl
+
+/-- two arrays (index set `Fin 3`, or any `ι`) of Cartesian 2D vectors: `+` adds the columns, one result type -/
+example (K : Consts (ι → X)) (x y x' y' : ι → X) :
+    binary (genEv (ι → X)) K .add ⟨{ be := .np, mom := false, az := .xy, lon := none, tmp := none }, [x, y]⟩
+        ⟨{ be := .np, mom := false, az := .xy, lon := none, tmp := none }, [x', y']⟩ [] =
+      .ok (.vec ⟨{ be := .np, mom := false, az := .xy, lon := none, tmp := none }, [x + x', y + y']⟩) := rfl
+
+/-- … and at position `i` this is the sum of the two elements -/
+example (x y x' y' : ι → X) (i : ι) : (x + x') i = x i + x' i ∧ (y + y') i = y i + y' i := ⟨rfl, rfl⟩
+
+/-- a NumPy array times a Python scalar: the scalar is a constant column; the polar array keeps its system -/
+example (rho phi : ι → X) (s : X) :
+    scaleN (genEv (ι → X)) 2 (bcastS ι s) ⟨{ be := .np, mom := true, az := .rhophi, lon := none, tmp := none }, [rho, phi]⟩ =
+      .ok (.vec ⟨{ be := .np, mom := true, az := .rhophi, lon := none, tmp := none },
+        (planar_scale.rhophi (bcastS ι s) rho phi).1 :: [(planar_scale.rhophi (bcastS ι s) rho phi).2]⟩) := rfl
+
+/-- an array error is the object error: adding a 2D array and a 3D array raises `TypeError`, like the elements do -/
+example (K : Consts (ι → X)) (x y x' y' z' : ι → X) (i : ι) :
+    binary (genEv (ι → X)) K .add ⟨{ be := .np, mom := false, az := .xy, lon := none, tmp := none }, [x, y]⟩
+        ⟨{ be := .np, mom := false, az := .xy, lon := some .z, tmp := none }, [x', y', z']⟩ [] = .error .typeError ∧
+    binary (genEv X) (K.map (· i)) .add ⟨{ be := .np, mom := false, az := .xy, lon := none, tmp := none }, [x i, y i]⟩
+        ⟨{ be := .np, mom := false, az := .xy, lon := some .z, tmp := none }, [x' i, y' i, z' i]⟩ [] =
+      .error .typeError := ⟨rfl, rfl⟩
 
 end
 end VG
